@@ -3,7 +3,7 @@
 wt=$1; name=$2
 cd $wt || exit 2
 id=$(basename $wt | sed 's/wt-//')
-export CARGO_NET_OFFLINE=true CARGO_TARGET_DIR=/tmp/agents/target-$(echo $id | cut -c1-3)
+export CARGO_NET_OFFLINE=true CARGO_TARGET_DIR=${VS_TARGET:-/tmp/agents/target-$(echo $id | cut -c1-3)}
 git checkout -q -- src 2>/dev/null; git clean -fdq tests 2>/dev/null
 res_clean=NA; res_patched=NA
 if ls OUT/demo/*.rs >/dev/null 2>&1 && [ ! -f OUT/demo/Cargo.toml ]; then
